@@ -31,6 +31,11 @@ type idIn struct {
 	Op    string // enqM, enqX, dlv, close
 	K     int16
 	Final bool
+	// MayRemove: a final delivery that returned an error while a close was in progress or done. The
+	// delivery is not atomic (unregister, give the id back, hand the frame over): when the close lands in
+	// between, the request is already unregistered - its answer HAS arrived - although the call reports
+	// an error. Set by the harness from the history, see c09Ids.
+	MayRemove bool
 }
 
 type idOut struct {
@@ -101,6 +106,13 @@ func idsModel(N int) porcupine.Model {
 				s[in.K] = true
 				return true, idState{encSet(s), st.Closed}
 			case "dlv":
+				if out.Err && in.MayRemove {
+					if s[in.K] {
+						delete(s, in.K)
+						return true, idState{encSet(s), st.Closed}
+					}
+					return true, st
+				}
 				if out.Err {
 					// an error is legal iff nobody waits for that id (unknown stream id), or the
 					// handler is closed
@@ -357,6 +369,20 @@ func c09Ids(r *Run) {
 		}
 	}
 	hist := ops
+	closeCall := int64(-1)
+	for _, o := range hist {
+		if o.Input.(idIn).Op == "close" && (closeCall < 0 || o.Call < closeCall) {
+			closeCall = o.Call
+		}
+	}
+	if closeCall >= 0 {
+		for i, o := range hist {
+			if in := o.Input.(idIn); in.Op == "dlv" && in.Final && o.Output.(idOut).Err && closeCall <= o.Return {
+				in.MayRemove = true
+				hist[i].Input = in
+			}
+		}
+	}
 	if r.Spec.Trace {
 		var lines []string
 		for _, o := range hist {
